@@ -20,6 +20,16 @@ JSCORE = {"2": ["baseScore", "temporalScore", "environmentalScore"], "3": ["base
           "4": ["baseScore"]}
 
 
+def official(ver, x):
+    """the official qualitative scale (the same scale is kernel-checked against the Lean spec for the atlas)"""
+    if x is None:
+        return "None"
+    t = int(round(x * 10))
+    if ver == "2":
+        return "Low" if t <= 39 else "Medium" if t <= 69 else "High"
+    return "None" if t == 0 else "Low" if t <= 39 else "Medium" if t <= 69 else "High" if t <= 89 else "Critical"
+
+
 def check_obj(ctx, ver, s, o, atlas):
     rp = {"ver": ver, "s": s}
     try:
@@ -46,6 +56,9 @@ def check_obj(ctx, ver, s, o, atlas):
             continue
         t = int(round(x * 10))
         atlas.setdefault((ver, i, t), s)
+        if sev[i] != official(ver, x):
+            ctx.violation("v%s:rating-of-%s" % (ver, "%d.%d" % (t // 10, t % 10)), "severity rating differs from the official scale",
+                          s, official(ver, x), sev[i], replay=rp)
     if not rh.startswith(repr(sc[0]) + "/"):
         ctx.violation("v%s:rh-score-text" % ver, "rh_vector() does not start with the base score printed with one decimal", s, repr(sc[0]), rh[:8], replay=rp)
     if ver == "4":
